@@ -44,8 +44,8 @@ BATCH = [("batch_size is None", "bs.isNone"), ("batch_size is not None", "(!bs.i
          ("$x.shape[0]", "(List.length {x})"),
          ("$x[$a:$b]", "(pySlice {x} {a} {b})"),
          ("range(0, $n, $k)", "(pyRange {n} {k})"),
-         ("np.vstack($l)", "(List.flatten {l})"),
-         ("np.hstack($l)", "(List.flatten {l})"),
+         ("np.vstack($l)", "(vstackL {l})"),
+         ("np.hstack($l)", "(hstackL {l})"),
          ("np.zeros($n, dtype=bool)", "(List.replicate {n} false)"),
          ("$e.points_outside_source_domain", "{e}")]
 APPEND = [("$l.append($v)", "l", "({l} ++ [{v}])")]
@@ -85,7 +85,7 @@ def _functions():
         "Except (List Bool) (List Pt)", pw.AbstractPWA._apply, {"self": "()", "x": "x", "kwargs": "()"},
         R(expr=[("self.index_alpha_beta($x)", "(iab {x})", "bind"),
                 ("self.ti", "ti"), ("self.tij", "tij"), ("self.tik", "tik"),
-                ("$a[:, None]", "{a}"), ("$a[$i]", "(gatherPts {a} {i})")],
+                ("$a[:, None]", "(Col.mk {a})"), ("$a[$i]", "(gatherPts {a} {i})")],
           binop={ast.Add: "(ptsAdd {a} {b})", ast.Mult: "(colMul {a} {b})"}), "Except.ok []")
     add("pythonIabT", "(src : List Tri) (points : List Pt) : Except (List Bool) (List Nat × Vec × Vec)",
         pw.PythonPWA.index_alpha_beta, {"self": "src", "points": "points"},
@@ -96,9 +96,14 @@ def _functions():
         "(s : MemoSt Val Res) (points : Val) : MemoSt Val Res × Except Err (Option Res)",
         pw.CachedPWA.index_alpha_beta, {"self": "s", "points": "points"},
         R(expr=[("PythonPWA.index_alpha_beta(self, $p)", "(compute {p})", "bind"),
+                # the two comparisons of the hit test are symmetric: either operand order (audit F7)
+                ("$p.shape == $s._applied_points.shape", "(shapeEqO shape {p} ({s}).key)"),
+                ("$s._applied_points.shape == $p.shape", "(shapeEqO shape {p} ({s}).key)"),
+                ("np.array_equal($p, $s._applied_points)", "(arrEqO {p} ({s}).key)"),
+                ("np.array_equal($s._applied_points, $p)", "(arrEqO {p} ({s}).key)"),
                 ("$p.shape == $q.shape", "(shapeEqO shape {p} {q})"),
                 ("np.array_equal($a, $b)", "(arrEqO {a} {b})"),
-                ("np.array($p, copy=True)", "{p}"),
+                ("np.array($p, copy=True)", "(Owned.copy {p})"),
                 ("$s._applied_points", "({s}).key"), ("$s._iab", "({s}).iab")],
           stmt=[("$s._iab = $v", "s", "{{ {s} with iab := some {v} }}"),
                 ("$s._applied_points = $v", "s", "{{ {s} with key := some {v} }}")],
